@@ -304,6 +304,40 @@ pub async fn reload(input: &Value) -> Value {
 }
 
 // ------------------------------------------------------------------------------------------------
+// fingerprints (C11 "a contact edit is noticed"; ops contacts_fp / eab_fp, probe/ops_contactsfp.rs)
+
+/// The real (private) `hash_contacts` on real `AccountContact` objects built by the crate's own
+/// constructor.  Input: `contacts_hex` = hex of the bytes of each configured value, `type` (default
+/// "mailto").  A value that is not UTF-8 cannot be a Rust `String`: reported as a refusal.
+pub fn contacts_fp(input: &Value) -> Value {
+	let ctype = input["type"].as_str().unwrap_or("mailto");
+	let mut contacts = vec![];
+	for (i, v) in input["contacts_hex"].as_array().cloned().unwrap_or_default().iter().enumerate() {
+		let s = match String::from_utf8(unhex(v.as_str().unwrap_or(""))) {
+			Ok(s) => s,
+			Err(_) => return json!({"refused": format!("contact {i}: not UTF-8")}),
+		};
+		match contact::AccountContact::new(ctype, &s) {
+			Ok(c) => contacts.push(c),
+			Err(e) => return json!({"refused": e.message}),
+		}
+	}
+	json!({
+		"hex": hex(&hash_contacts(&contacts)),
+		"texts": contacts.iter().map(|c| shex(&c.to_string())).collect::<Vec<String>>(),
+	})
+}
+
+/// The real (private) `hash_external_account`.  Input as for `eab_of`: identifier, key_hex, alg.
+pub fn eab_fp(input: &Value) -> Value {
+	match eab_of(input) {
+		Ok(Some(ec)) => json!({"hex": hex(&hash_external_account(&ec))}),
+		Ok(None) => json!({"refused": "no binding given"}),
+		Err(e) => json!({"refused": e}),
+	}
+}
+
+// ------------------------------------------------------------------------------------------------
 // several endpoints (C11 "each endpoint independently"; ops am_load / am_sync, probe/ops_accountmulti.rs)
 //
 // ONE `Account` and one `Endpoint` object per endpoint name live in this process between ops, as they
